@@ -101,6 +101,11 @@ CalTimeTheorem(pub, maxLen) ==
          Cardinality({v \in 0..(Pow2(n) - 1) : CalTime(BitsOf(v, n), pub) >= 0})
            = Cardinality({t \in 0..pub : Len(RefShape(pub, t)) = n})
 
+(* ---- compatibility of two calendar chains of one signature (extending, C08): same aggregation time, same input hash, ---- *)
+(* ---- and the same sequence of right-link siblings (the left links are what a later publication changes)             ---- *)
+RightSibs(links) == LET idx == SelectSeq([i \in DOMAIN links |-> i], LAMBDA i : ~links[i].left) IN [k \in DOMAIN idx |-> links[idx[k]].sib]
+Compatible(a, b) == a.aggr = b.aggr /\ a.inp = b.inp /\ RightSibs(a.links) = RightSibs(b.links)
+
 (* ---- chain index derived from the link directions: a leading 1, then the links from last to first ---- *)
 ShapeBits(lefts) == <<1>> \o [i \in 1..Len(lefts) |-> IF lefts[Len(lefts) + 1 - i] THEN 1 ELSE 0]
 ShapeRepresentable(lefts) == Len(lefts) <= 63        \* must fit a 64-bit index together with the leading 1
